@@ -2,6 +2,7 @@ SPECIFICATION Spec
 INVARIANT RoundTrip
 INVARIANT NeverWrongPlaintext
 INVARIANT NoPlaintextInOutput
+INVARIANT DecryptOnlyReads
 INVARIANT EmitInv
 PROPERTY Finishes
 CHECK_DEADLOCK FALSE
